@@ -284,3 +284,39 @@ def star_segments(t: Term) -> List[Term]:
     if run:
         out.append(("list", tuple(run)))
     return out
+
+
+def front_delegation(model: Model, rep, rule: str, cls_name: str, member: str, target_attr: str, is_call: bool, what: str):
+    """``<cls>.<member>`` (what the user reads) is the structure's ``<target_attr>`` evaluated on every call: one kind of return, no stored or defaulted value
+    in between (a hand-rolled memo would have to be invalidated by every writer of the structure, of the duration registries and of the global override)."""
+    from ..paths import PathEnumerator
+    K = model.cls(cls_name)
+    f = K.properties.get(member) or K.resolve(member)
+    if f is None:
+        raise AnalysisError(f"{cls_name}.{member} not found")
+    opaque = {x.qualname for x in model.all_functions() if x.name == target_attr}
+    ev = Evaluator(model, inline_methods=False, opaque=opaque)
+    paths = [p for p in PathEnumerator(ev).function_paths(f, self_cls=K) if p.exit in ("return", "raise", "fall")]
+    s = sym(f.self_name)
+    structure = [("attr", s, "_structure"), ("attr", s, "circuit_structure")]
+    cs = K.properties.get("circuit_structure")
+    if cs is not None:
+        structure.append(Evaluator(model, inline_methods=False).value_of(cs, self_cls=K))
+    want = []
+    for x in structure:
+        a = ("attr", x, target_attr)
+        want.append(("call", a, (), ()) if is_call else a)
+    bad = []
+    for p in paths:
+        v = strip_identity_wrappers(p.value) if p.value is not None else None
+        while v is not None and v[0] == "var" and len(v) == 4:
+            v = v[3]
+        if v is not None and v[0] == "call" and v[1] in ("list", "tuple") and len(v[2]) == 1 and not v[3]:
+            v = v[2][0]
+        if p.exit != "return" or v not in want:
+            bad.append(f"{p.exit} {show(p.value) if p.value is not None else ''} if {show(p.cond)}"[:160])
+        st = [e for e in p.events if e.kind == "store"]
+        if st:
+            bad.append("stores " + ", ".join(show(e.term)[:60] for e in st if e.term is not None))
+    rep.check(not bad and len(paths) >= 1, rule, f"{cls_name}.{member}", f.loc, found="; ".join(bad) or show(paths[0].value), required=f"return self._structure.{target_attr}{'()' if is_call else ''} (always)",
+              what=what + ": " + "; ".join(bad), detail="front")
